@@ -141,7 +141,8 @@ StringDictionaryRPHTFC::StringDictionaryRPHTFC(IteratorDictString *it,
   bitsrp = rp->getBits();
 
   std::vector<size_t> intStrings;              // Encoded internal strings
-  std::vector<size_t> beginnings(buckets + 1); // Bucket beginnings
+  // Bucket beginnings (one spare slot: the closing mark of a full last bucket)
+  std::vector<size_t> beginnings(buckets + 2);
 
   size_t ibytes = 0;
   uint io = 0, strings = 0;
